@@ -48,12 +48,12 @@ def rdev(rng, typ=None, **kw):
          "ip": rng.choice([[192, 168, 1, 33], [10, 0, 0, 1], [0, 0, 0, 0], [255, 255, 255, 255], list(rng.randbytes(4))]),
          "mac": rng.choice([[0x12, 0xA1, 0xA2, 0x1A, 0xBC, 0x1A], list(rng.randbytes(6)), [0] * 6, [255] * 6])}
     if fam in ("heater", "plug"):
-        d.update(state=rng.randrange(2), watts=rng.choice([0, 1, 109, 110, 111, 219, 220, 2600, 65535, rng.randrange(65536)]),
-                 remaining=rng.choice([0, 1, 59, 3600, 5400, 86399, rng.randrange(86400)]),
-                 auto=rng.choice([0, 3600, 10800, 86340, 86399, rng.randrange(86400)]))
+        d.update(state=rng.randrange(2), watts=rng.choice([0, 1, 109, 110, 111, 219, 220, 2600, 65535, 61694, 65264, rng.randrange(65536)]),
+                 remaining=rng.choice([0, 1, 59, 3600, 5400, 86399, 61694, 65264, 65536, rng.randrange(86400)]),
+                 auto=rng.choice([0, 3600, 10800, 86340, 86399, 61694, 65264, 65536, 70000, rng.randrange(86400)]))
     elif fam == "thermo":
         d.update(state=rng.randrange(2), mode=rng.randrange(1, 6), target=rng.choice([0, 16, 24, 30, 255, rng.randrange(256)]),
-                 fan=rng.randrange(4), swing=rng.randrange(2), temp10=rng.choice([0, 1, 255, 256, 281, 65535, rng.randrange(65536)]),
+                 fan=rng.randrange(4), swing=rng.randrange(2), temp10=rng.choice([0, 1, 255, 256, 281, 65535, 61694, 65264, rng.randrange(65536)]),
                  remote=list(rng.choice([b"ELEC7022", b"ZM079055", b"ABCDEFGH", b"12345678", b"a b~c{d}"])))
     else:
         d.update(position=rng.choice([0, 1, 24, 50, 99, 100, rng.randrange(101)]), direction=rng.choice([[0, 0], [1, 0], [0, 1]]))
